@@ -102,6 +102,12 @@ impl<T: Ord> Ord for Identifier<T> {
 //@end
 }
 
+// #[derive(Clone)] on Identifier: returns an equal value when the marker type's Clone does (assumed)
+impl<T: Clone> Clone for Identifier<T> {
+    #[verifier::external_body]
+    fn clone(&self) -> (r: Self) ensures clone_ok::<T>() ==> r == *self { Identifier(self.0.clone()) }
+}
+
 impl<T> From<(BigRational, T)> for Identifier<T> {
     #[verifier::external_body]
     fn from(p: (BigRational, T)) -> (r: Self) ensures r@ == seq![p] { Self(vec![(p.0, p.1)]) }
